@@ -213,14 +213,17 @@ func (e *Exec) check(st *State, fr *Frame, class string, instr ssa.Instruction, 
 		o.By["simplifier"]++
 		return true
 	}
+	orig := goal
+	goal = skolemGoal(goal)
 	e.ensureDecls(goal)
+	e.ensureDecls(orig)
 	if os.Getenv("GOVC_TRACE") != "" {
 		fmt.Fprintf(os.Stderr, "OBLIG %s\n", name)
 	}
 	if o.Failed+o.Undec > 0 && o.Inst > 3 {
 		// already failing: do not spend solver time on further path instances
 		o.Undec++
-		e.assume(goal)
+		e.assume(orig)
 		return false
 	}
 	var cr CheckResult
@@ -245,8 +248,31 @@ func (e *Exec) check(st *State, fr *Frame, class string, instr ssa.Instruction, 
 			o.Model = cr.Model
 		}
 	}
-	e.assume(goal)
+	e.assume(orig)
 	return ok
+}
+
+// skolemGoal replaces universally quantified variables in positive positions of
+// a proof goal by fresh constants (z3 handles the named constants far better
+// than its own skolemization of a negated quantifier in incremental mode).
+func skolemGoal(g *Term) *Term {
+	switch g.Op {
+	case "and":
+		out := make([]*Term, len(g.Args))
+		for i, a := range g.Args {
+			out[i] = skolemGoal(a)
+		}
+		return And(out...)
+	case "=>":
+		return Implies(g.Args[0], skolemGoal(g.Args[1]))
+	case "forall":
+		m := map[*Term]*Term{}
+		for _, v := range g.Bind {
+			m[v] = Const(freshName("sk."+strings.Trim(v.Op, "|")), v.S)
+		}
+		return skolemGoal(Subst(g.Args[0], m))
+	}
+	return g
 }
 
 func (e *Exec) proveWithHook(st *State, o *Oblig, goal *Term) CheckResult {
@@ -542,8 +568,7 @@ func (e *Exec) compact(v Val) Val {
 		}
 		c := Const(freshName("v"), x.S)
 		constDefs[c] = x
-		e.sol.DeclareConst(c)
-		e.assumeRaw(mk("=", SBool, c, x))
+		constFacts[c.Op] = []*Term{mk("=", SBool, c, x)}
 		return c
 	case *StructVal:
 		n := &StructVal{T: x.T, F: make([]Val, len(x.F))}
@@ -1065,6 +1090,14 @@ func (e *Exec) convert(st *State, fr *Frame, i *ssa.Convert) Val {
 	_ = fb
 	switch {
 	case fint && tint:
+		flo, fhi, _, _, _ := intRange(from)
+		a, _ := new(big.Int).SetString(flo, 10)
+		b, _ := new(big.Int).SetString(fhi, 10)
+		c, _ := new(big.Int).SetString(lo, 10)
+		d, _ := new(big.Int).SetString(hi, 10)
+		if a.Cmp(c) >= 0 && b.Cmp(d) <= 0 {
+			return x // every source value is representable: no wrap-around
+		}
 		return wrapTo(e.term(x), lo, hi, tb, signed)
 	case sortOf(from) == SStr && sortOf(to) == SStr:
 		return x
@@ -1090,6 +1123,9 @@ func (e *Exec) strToBytes(st *State, s *Term, to types.Type) *Term {
 	k := BoundVar("k", SInt)
 	sel := Select(st.heap(h, hs), El(arr, k))
 	e.assume(Forall([]*Term{k}, Implies(And(Le(IntLit(0), k), Lt(k, n)), Eq(sel, App("s_at", SInt, s, k))), []*Term{sel}))
+	// round trip: converting the untouched slice back yields the same string
+	e.bytesToStr(st, NilSlice, to)
+	e.assume(Eq(App("s_ofb", SStr, st.heap(h, hs), arr, IntLit(0), n), s))
 	return sl
 }
 
